@@ -6,6 +6,7 @@ clang++ (front end / IR emission), opt-14 (mem2reg) and the two serialisers
 build/yast.so and build/yir."""
 import hashlib
 import json
+import re
 import os
 import subprocess
 import sys
@@ -43,6 +44,7 @@ class Run:
         self.assumptions = []
         self.canaries = []
         self.broken = []
+        self.kinds = {}
         if not os.path.isdir(os.path.join(self.inc, "yorel", "yomm2")):
             raise AnalysisBroken("no include/yorel/yomm2 under " + self.root)
         self._hdr_hash = None
@@ -56,7 +58,9 @@ class Run:
 
     def instance(self, rule, what, where=None, ok=True, detail=None):
         r = self.rules[rule]
-        e = {"what": what}
+        k = "%s :: %s" % (rule, instance_kind(what))
+        self.kinds[k] = self.kinds.get(k, 0) + 1
+        e = {"what": what[:240]}
         if where:
             e["where"] = self.rel(where)
         if detail is not None:
@@ -114,6 +118,17 @@ class Run:
         for name, r in self.rules.items():
             if len(r["instances"]) < r["floor"]:
                 self.broken.append("rule %s matched %d instance(s), floor %d" % (name, len(r["instances"]), r["floor"]))
+        # reference obligation kinds: the instances confirmed on the committed tree are the reference for any later
+        # one; a kind of obligation that no longer turns up (a rule that found nothing to judge) is analysis-broken
+        ref = load_reference(self.prop, self.tier)
+        for key, n_ref in sorted(ref.items()):
+            n = self.kinds.get(key, 0)
+            need = n_ref if n_ref < 30 else int(n_ref * 0.7)
+            rule = key.split(" :: ")[0]
+            if re.match(r"^[\w./-]+\.(cpp|hpp)\b", key.split(" :: ", 1)[1]):
+                continue        # instances from the repository's own tests/examples: their number is not the library's business
+            if n < need and rule in self.rules and not self.rules[rule]["violations"]:
+                self.broken.append("obligation kind vanished or shrank: %d instance(s), reference %d: %s" % (n, n_ref, key))
         for k in known.get("findings", []):
             if k.get("property") == self.prop and (k["rule"], k["key"]) in {(v["rule"], v["key"]) for v in listed}:
                 print("KNOWN-FINDING: property=%s %s [%s %s]" % (self.prop, k["what"], k["rule"], k["key"]))
@@ -149,6 +164,12 @@ class Run:
             "wall_s": round(time.time() - self.t0, 2),
             "violations": len(reported),
         }
+        ev["coverage"]["obligation_kinds"] = len(self.kinds)
+        ev["coverage"]["reference_kinds"] = len(ref)
+        if os.environ.get("YV_WRITE_REFERENCE") and not self.broken and not reported:
+            os.makedirs(os.path.join(VERIF, "reference"), exist_ok=True)
+            with open(os.path.join(VERIF, "reference", "%s.%s.json" % (self.prop, self.tier)), "w") as f:
+                json.dump(self.kinds, f, indent=0, sort_keys=True)
         if self.broken:
             ev["coverage"]["analysis_broken"] = self.broken
         # evidence is only (re)written for runs against the registered root
@@ -177,6 +198,39 @@ class Run:
             return 1
         print("OK property=%s tier=%s instances=%d wall=%.1fs" % (self.prop, self.tier, n_inst, time.time() - self.t0))
         return 0
+
+
+def instance_kind(label):
+    s = re.sub(r"`[^`]*`", "`..`", label)
+    for _ in range(8):
+        s2 = re.sub(r"\([^()]*\)", "", s)
+        s2 = re.sub(r"<[^<>]*>", "", s2)
+        s2 = re.sub(r"\[[^\[\]]*\]", "", s2)
+        if s2 == s:
+            break
+        s = s2
+    s = re.sub(r"\{[^{}]*\}", "", s)
+    s = re.split(r"[<(\[{]", s)[0]      # a label cut by its producer: drop what follows an unbalanced opener
+    s = re.sub(r"\d+", "#", s)
+    s = re.sub(r"\s+", " ", s).strip()
+    return s[:140]
+
+
+def instance_kinds(rules):
+    out = {}
+    for name, r in rules.items():
+        for e in r["instances"]:
+            k = "%s :: %s" % (name, instance_kind(e["what"]))
+            out[k] = out.get(k, 0) + 1
+    return out
+
+
+def load_reference(prop, tier):
+    p = os.path.join(VERIF, "reference", "%s.%s.json" % (prop, tier))
+    if os.path.exists(p):
+        with open(p) as f:
+            return json.load(f)
+    return {}
 
 
 def load_known():
